@@ -32,6 +32,8 @@ type nativeRunner struct {
 	bins   map[string]string // package dir -> test binary
 	errs   map[string]error
 	tmp    string
+	// harness files (by their path in the tree) left out because they do not type-check
+	dropped map[string]bool
 }
 
 func newNativeRunner(repo, outDir string, p *gosym.Program) *nativeRunner {
@@ -63,7 +65,9 @@ func (n *nativeRunner) build(fn *ssa.Function) (string, error) {
 	filepath.Walk(hroot, func(p string, info os.FileInfo, err error) error {
 		if err == nil && !info.IsDir() && strings.HasSuffix(p, ".go") {
 			rel, _ := filepath.Rel(hroot, p)
-			replace[filepath.Join(n.repo, rel)] = p
+			if !n.dropped[filepath.Join(n.repo, rel)] {
+				replace[filepath.Join(n.repo, rel)] = p
+			}
 		}
 		return nil
 	})
